@@ -361,4 +361,93 @@ theorem C03_fn_get_secret {H : Type} (h : List Nat → H) (tb : H → List Nat) 
 
 end Secrets
 
+/-! ### the state-dependent checks of `SimpleValidator::validate_counterparty_commitment_tx` (simple_validator.rs:721) and
+`validate_counterparty_revocation` (:910), generated: `Gen/FnSimpleState.lean`.  The two `EnforcementState` selectors
+are externals there; the theorems instantiate them with the generated selectors of `Gen/FnEnforce.lean`. -/
+section SimpleState
+open VlsModel.Gen.FnSimpleState (SimpleValidator)
+
+/-- `validate_counterparty_commitment_tx` = the head of the model's `signCp`: content rules, `commit_num ≤ revoke + 1`,
+    a retry must carry the signed point and the signed content -/
+theorem C03_fn_validate_counterparty_commitment_tx
+    (dO dR : Nat → Nat → Unit × Unit)
+    (vct : Gen.FnSimpleState.EnforcementState Nat Nat → Nat → Nat → Unit → Gen.FnSimpleState.ChainState → Nat → Rs.M Unit)
+    (gi : Gen.FnSimpleState.EnforcementState Nat Nat → Nat → Rs.M (Option Nat))
+    (c : Chan) (n pt info : Nat) (pk : Bool) (t0 : String)
+    (hv : vct (toSV c) n pt () ⟨⟩ info = contentRules pk t0)
+    (hgi : gi (toSV c) n = (toES c).get_previous_counterparty_commit_info n)
+    (hr : c.cpRevoke + 1 ≤ Rs.U64_MAX) (hn : n + 2 ≤ Rs.U64_MAX) :
+    cls (SimpleValidator.validate_counterparty_commitment_tx dO dR vct strict gi ⟨⟩ (toSV c) n pt () ⟨⟩ info)
+      = if !pk then .errPolicy
+        else if n > c.cpRevoke + 1 then .errPolicy
+        else if n + 1 = c.cpCommit ∧ c.curPt ≠ some pt then .errPolicy
+        else if n + 1 = c.cpCommit ∧ c.curInfo ≠ some info then .errPolicy
+        else .ok := by
+  have hsel := C03_fn_get_previous_counterparty_commit_info c n hn
+  rw [hsel] at hgi
+  obtain ⟨slot, next, cur, nextInfo, closed, m, r, curPt, prevPt, curInfo, prevInfo, secrets⟩ := c
+  have hn1 : n + 1 ≤ Rs.U64_MAX := by omega
+  unfold SimpleValidator.validate_counterparty_commitment_tx
+  rw [hv, hgi]
+  simp only [toSV, contentRules] at hr ⊢
+  cases pk
+  · simp
+  · simp only [if_true, Rs.bind_ok, Rs.uadd, hr, hn1, Rs.pure_eq, Bool.not_true, Bool.false_eq_true, if_false]
+    by_cases a : n > r + 1
+    · simp [a, policyErr_strict]
+    · by_cases b : n + 1 = m
+      · subst b
+        cases curPt with
+        | none => simp [a, policyErr_strict]
+        | some p =>
+          by_cases e : pt = p
+          · subst e
+            cases curInfo with
+            | none => simp [a, policyErr_strict]
+            | some i =>
+              by_cases g : info = i
+              · subst g; simp [a]
+              · have g' : ¬ i = info := fun h => g h.symm
+                simp [a, g, g', policyErr_strict]
+          · have e' : ¬ p = pt := fun h => e h.symm
+            simp [a, e, e', policyErr_strict]
+      · simp [a, b]
+
+/-- `validate_counterparty_revocation` = the head of the model's `revokeCp`: only the expected number or a retry, and the
+    point of the secret (`fsk`: secp, opaque) must be the point signed for that number -/
+theorem C03_fn_validate_counterparty_revocation
+    (fsk : Unit → Nat → Nat)
+    (gp : Gen.FnSimpleState.EnforcementState Nat Nat → Nat → Rs.M (Option Nat))
+    (c : Chan) (n sec : Nat)
+    (hgp : gp (toSV c) n = (toES c).get_previous_counterparty_point n)
+    (hn : n + 2 ≤ Rs.U64_MAX) :
+    cls (SimpleValidator.validate_counterparty_revocation () strict fsk gp ⟨⟩ (toSV c) n sec)
+      = if n ≠ c.cpRevoke ∧ n + 1 ≠ c.cpRevoke then .errPolicy
+        else if prevPoint c n ≠ some (fsk () sec) then .errPolicy
+        else .ok := by
+  rw [C03_fn_get_previous_counterparty_point c n hn] at hgp
+  have hn1 : n + 1 ≤ Rs.U64_MAX := by omega
+  unfold SimpleValidator.validate_counterparty_revocation
+  rw [hgp]
+  simp only [toSV, Rs.bind_ok, Rs.uadd, hn1, if_true, Rs.pure_eq]
+  by_cases a : n = c.cpRevoke
+  · cases hp : prevPoint c n with
+    | none => simp [a, policyErr_strict]
+    | some p =>
+      by_cases e : fsk () sec = p
+      · simp [a, e]
+      · have e' : ¬ p = fsk () sec := fun h => e h.symm
+        simp [a, e, e', policyErr_strict]
+  · by_cases b : n + 1 = c.cpRevoke
+    · cases hp : prevPoint c n with
+      | none => simp [a, b, policyErr_strict]
+      | some p =>
+        by_cases e : fsk () sec = p
+        · simp [a, b, e]
+        · have e' : ¬ p = fsk () sec := fun h => e h.symm
+          simp [a, b, e, e', policyErr_strict]
+    · simp [a, b, policyErr_strict]
+
+end SimpleState
+
 end VlsModel.Props.C03Fn
